@@ -113,29 +113,34 @@ Definition corr_run (r : run) : bool :=
 (** clause codes: 1 export does not validate; 21 import panics because the feed's request context is
     missing on B (the service genesis did not import); 2 import panics otherwise; 41 a feed's value
     history reads differently on B; 3 second export differs; 4 a feed or its state reads differently
-    on B; 5 B's running queue disagrees with the exported states *)
+    on B; 5 B's running queue disagrees with the exported states.
+    Clause 3 compares the second export without the values (their loss is clause 41). *)
 Definition values_view (s : state) := map (fun x => (fst x, rev (map snd (snd x)))) (vals s).
-Definition prop_run (r : run) : Z :=
-  first_code
+Definition strip (g : genesis) : list (feed * Z) := map fst g.
+Definition prop_clauses (r : run) : list (Z * bool) :=
     [ (1, r_val r);
       (21, (r_imp r =? 0) || forallb (fun en => has (o_ctx (fst (fst en))) (r_eB r)) (r_gA r));
-      (2, r_imp r =? 0);
+      (2, (r_imp r =? 0) || negb (forallb (fun en => has (o_ctx (fst (fst en))) (r_eB r)) (r_gA r)));
       (41, match r_sB r with Some b => eqb (values_view b) (values_view (r_sA r)) | None => true end);
-      (3, match r_gB r with Some g => eqb g (r_gA r) | None => true end);
+      (3, match r_gB r with Some g => eqb (strip g) (strip (r_gA r)) | None => true end);
       (4, match r_sB r with Some b => eqb (feeds b) (feeds (r_sA r)) | None => true end);
       (5, match r_sB r with
           | Some b => forallb (fun en => eqb (has (o_name (fst (fst en))) (running b)) (snd (fst en) =? 0)) (r_gA r)
           | None => true end) ].
 
-Fixpoint check_runs (rs : list run) (i : Z) (corr prop code : Z) : Z * Z * Z :=
+Fixpoint run_fails (rs : list run) (i : Z) : list (Z * Z) :=
   match rs with
-  | [] => (corr, prop, code)
-  | r :: rest =>
-      let corr' := if (corr <? 0) && negb (corr_run r) then i else corr in
-      let c := prop_run r in
-      let '(prop', code') := if (prop <? 0) && negb (c =? 0) then (i, c) else (prop, code) in
-      check_runs rest (i + 1) corr' prop' code'
+  | [] => []
+  | r :: rest => map (fun c => (i, c)) (all_codes (prop_clauses r)) ++ run_fails rest (i + 1)
   end.
+Fixpoint first_div (rs : list run) (i : Z) : Z :=
+  match rs with
+  | [] => -1
+  | r :: rest => if corr_run r then first_div rest (i + 1) else i
+  end.
+
+(** the clause codes recorded as known findings of this module (see known-findings.txt) *)
+Definition known_codes : list Z := [21; 41].
 
 Definition check_oracle (c : case) : Z * Z * Z :=
   let pre_ok :=
@@ -143,5 +148,5 @@ Definition check_oracle (c : case) : Z * Z * Z :=
     | r0 :: r1 :: _ => eqb (r_sA r1) (prep (r_sA r0))
     | _ => true
     end in
-  let '(corr, prop, code) := check_runs (c_runs c) 0 (-1) (-1) 0 in
-  (if pre_ok then corr else 1, prop, code).
+  let '(prop, code) := pick_violation known_codes (run_fails (c_runs c) 0) in
+  (if pre_ok then first_div (c_runs c) 0 else 1, prop, code).
